@@ -179,6 +179,54 @@ def check_factoring(ctx, cirq, n):
             pass
 
 
+def check_cnot_counts_and_tabulation(ctx, cirq, n):
+    """num_cnots_required against the interaction coefficients (0: local; 1: (pi/4, 0, 0); 2: third coefficient 0; else 3) and against
+    the CZ synthesis; TwoQubitGateTabulation.compile_two_qubit_gate: the returned local layers around the base gate multiply to
+    the gate it says it compiled, within the promised infidelity of the target when it reports success"""
+    from cirq.transformers.heuristic_decompositions.two_qubit_gate_tabulation import two_qubit_gate_product_tabulation
+
+    rng = ctx.substream('cnot-counts')
+    q0, q1 = cirq.LineQubit.range(2)
+
+    def loc():
+        return np.kron(gen.rand_unitary(rng, 2), gen.rand_unitary(rng, 2))
+
+    for _ in range(n):
+        kind = rng.choice(['local', 'cnot', 'edge', 'iswap', 'z0', 'swap', 'generic', 'generic'])
+        x, y, z = {'local': (0, 0, 0), 'cnot': (np.pi / 4, 0, 0), 'edge': (np.pi / 4, rng.uniform(0.05, np.pi / 4 - 0.05), 0), 'iswap': (np.pi / 4, np.pi / 4, 0),
+                   'z0': (rng.uniform(0.1, 0.7), rng.uniform(0.02, 0.09), 0), 'swap': (np.pi / 4, np.pi / 4, np.pi / 4),
+                   'generic': (rng.uniform(0.3, 0.78), rng.uniform(0.1, 0.29), rng.uniform(0.02, 0.09))}[kind]
+        u = loc() @ interaction(x, y, z) @ loc() * np.exp(1j * rng.uniform(0, 6))
+        want = {'local': 0, 'cnot': 1, 'edge': 2, 'iswap': 2, 'z0': 2, 'swap': 3, 'generic': 3}[kind]
+        got = cirq.num_cnots_required(u)
+        ctx.count('check', 'num_cnots_required')
+        ctx.case(['cnots', kind, np.round(u, 6).tobytes().hex()[:40]], True)
+        ops = cirq.two_qubit_matrix_to_cz_operations(q0, q1, u, allow_partial_czs=False)
+        n_cz = sum(1 for o in ops if len(o.qubits) == 2)
+        if got != want or n_cz != want:
+            ctx.report_witness('synth:num-cnots', 'num_cnots_required (or the number of CZs of the synthesis) is not the number the interaction class needs',
+                               {'lines': [{'class': kind, 'interaction': [float(x), float(y), float(z)]}], 'impl_out': [got, n_cz], 'spec_out': [want], 'theorem_or_correspondence': 'interaction classes (C15 canonical coefficients)'})
+    # gate tabulation
+    base = cirq.unitary(cirq.FSimGate(np.pi / 2, np.pi / 6))
+    tab = two_qubit_gate_product_tabulation(base, 0.05, sample_scaling=20, random_state=np.random.RandomState(ctx.seed))
+    for _ in range(max(6, n // 4)):
+        kind = rng.choice(['base-class', 'base-class', 'generic', 'local', 'base'])
+        target = {'base-class': lambda: loc() @ base @ loc(), 'generic': lambda: gen.rand_unitary(rng, 4), 'local': loc, 'base': lambda: base}[kind]()
+        res = tab.compile_two_qubit_gate(target)
+        ks = res.local_unitaries
+        m = np.kron(*ks[0])
+        for k in ks[1:]:
+            m = np.kron(*k) @ base @ m
+        fid_actual = abs(np.trace(m.conj().T @ res.actual_gate)) / 4
+        fid_target = abs(np.trace(m.conj().T @ target)) / 4
+        ctx.count('check', 'tabulation:' + kind)
+        ctx.case(['tabulation', kind, np.round(target, 5).tobytes().hex()[:40]], True)
+        if fid_actual < 1 - 1e-6 or (res.success and fid_target ** 2 < 1 - 0.05 - 1e-6):
+            ctx.report_witness('synth:tabulation', 'the local layers returned by TwoQubitGateTabulation.compile_two_qubit_gate do not multiply (around the base gate) to the gate it reports / approximate the target',
+                               {'lines': [{'target_class': kind, 'layers': len(ks)}], 'impl_out': [float(fid_actual), float(fid_target), bool(res.success)], 'spec_out': ['product = actual_gate, fidelity^2 >= 0.95 when success'],
+                                'theorem_or_correspondence': 'factor product'})
+
+
 def check_matrix_routines(ctx, cirq, n):
     rng = ctx.substream('matrix')
     for i in range(n):
@@ -421,6 +469,7 @@ def run(ctx: common.Run):
     check_canonicalize(ctx, cirq, n * 2)
     check_matrix_routines(ctx, cirq, n)
     check_factoring(ctx, cirq, max(20, n // 2))
+    check_cnot_counts_and_tabulation(ctx, cirq, max(24, n // 2))
     check_synthesis(ctx, cirq, n)
 
 
